@@ -54,6 +54,16 @@ impl<F> MiniAllocator<F> {
         self.directory.inner()
     }
 
+    #[cfg(cfb_verif)]
+    pub fn verif_parts(&self) -> (&Directory<F>, &[u32], u32, &[u32]) {
+        (
+            &self.directory,
+            &self.minifat,
+            self.minifat_start_sector,
+            &self.free_mini_sectors,
+        )
+    }
+
     pub fn next_mini_sector(&self, sector_id: u32) -> io::Result<u32> {
         let index = sector_id as usize;
         if index >= self.minifat.len() {
